@@ -153,8 +153,32 @@ def wire_leg(ctx):
         bad[sig] += 1
         first.setdefault(sig, o)
 
+    # what the MODEL (Node.lean resolveStatus / apiTimestamp over the regenerated switch of ResolveStatusCode) says
+    wops = os.path.join(out, "wireops.jsonl")
+    with open(wops, "w") as f:
+        for o in lines:
+            f.write(json.dumps({"op": "nstatus", "kind": o.get("kind", "")}) + "\n")
+            f.write(json.dumps({"op": "napits", "asked": o.get("asked")}) + "\n")
+    okm, errm = ctx.model("C16", wops, os.path.join(out, "wiremodel.out"))
+    ctx.oblige("wire-model-driver-runs", okm, errm[-300:])
+    wm = [x for x in ctx.read_lines(os.path.join(out, "wiremodel.out")) if x]
+    for n_, o in enumerate(lines):
+        o["model_status"] = wm[2 * n_].split()[1] if 2 * n_ < len(wm) else "?"
+        o["model_after"] = wm[2 * n_ + 1].split()[1] if 2 * n_ + 1 < len(wm) else "?"
     for o in lines:
         fail, known, err = o["scripted_failure"], o["known"], o["err"]
+        if o["op"] == "rawget":
+            kinds[("rawget", "absent" if o["asked"] is None else "given")] += 1
+            if o["saw_service"] != o["service"]:
+                flag("wire:service-id-not-passed-through", o)
+            want_after = 0 if o["asked"] is None else o["asked"]
+            if o["saw_after"] != want_after or str(want_after) != o["model_after"]:
+                flag("wire:timestamp-default-or-value-wrong", o)
+            k = o["kind"]
+            want_status = "200" if not k else ("400" if ("i" in k or "d" in k) else ("404" if "n" in k else "500"))
+            if str(o["status"]) != want_status or (k and o["model_status"] != want_status):
+                flag("wire:status-code-wrong", o)
+            continue
         kinds[(o["op"], "fail" if fail else ("ok" if known else "unknown-service"))] += 1
         if o["saw_service"] != o["service"]:
             flag("wire:service-id-not-passed-through", o)
@@ -171,8 +195,11 @@ def wire_leg(ctx):
         if (fail or not known) and not err:
             flag("wire:server-error-reported-as-success", o)
         if err:
-            want = "404" if (not known and not fail) else ("400" if "presentation is invalid" in fail else "500")
-            if f"status code {want}" not in err:
+            # independent expectation: invalid presentation / unsupported DID methods are the client's fault (400), an unknown
+            # list is 404, anything else 500; the first that applies, in this order
+            k = o.get("kind", "")
+            want = "400" if "i" in k else ("400" if "d" in k else ("404" if "n" in k else "500"))
+            if f"status code {want}" not in err or o["model_status"] != want:
                 flag("wire:error-class-changed", o)
     for sig, o in first.items():
         ctx.violation("C16:" + sig, f"transport between client and server is not faithful ({bad[sig]} calls), first: {json.dumps(o)[:400]}",
@@ -295,6 +322,14 @@ def node_leg(ctx, binary, replay=None):
             vp, now = op["vp"], op["now"]
             if outc.startswith("panic"):
                 flag("unexpected-outcome-panic", f"Register panicked: {outc}", i)
+            # how a refusal is reported to the caller (the REST layer maps it: ErrInvalidPresentation / ErrDIDMethodsNotSupported
+            # -> 400, ErrServiceNotFound -> 404): a presentation refused by a check is the submitter's fault. As the code is, a
+            # wrong audience and an underivable signer are returned bare (-> 500); everything else must carry the sentinel.
+            kflags = m.group(2)
+            if outc.startswith("err:") and not outc.startswith("err:other") and outc not in ("err:aud", "err:signer") and "i" not in kflags:
+                flag("refusal-not-reported-as-invalid-presentation", f"Register({sid}) refused with {outc} but the error is not ErrInvalidPresentation (k={kflags})", i)
+            if (outc == "err:did-method") != ("d" in kflags) or (outc == "not-found") != ("n" in kflags):
+                flag("refusal-reported-with-the-wrong-sentinel", f"Register({sid}) ended with {outc}, sentinels k={kflags}", i)
             if outc == "ok":
                 if sid not in conf["served"]:
                     flag("registered-on-a-list-the-node-does-not-serve", f"Register({sid}) accepted, served lists are {sorted(conf['served'])}", i)
